@@ -871,8 +871,26 @@ fn substitute_correlated_columns(
         }
     }
 
+    // An unqualified name that the subquery's own tables (or derived
+    // columns) provide belongs to the subquery: `(SELECT COUNT(b) FROM w
+    // WHERE w.a > t.b)` counts w.b even when the outer row has a `b` too.
+    // Qualified outer references keep their `rel.name` entry.
+    let mut local_names = std::collections::HashSet::new();
+    collect_local_column_names(plan, &mut local_names);
+    column_values.retain(|k, _| k.contains('.') || !local_names.contains(k));
+
     // Recursively substitute column references in the plan
     substitute_columns_in_plan(plan, &column_values, &local_tables)
+}
+
+/// Names of every column produced anywhere inside `plan`.
+fn collect_local_column_names(plan: &LogicalPlan, names: &mut std::collections::HashSet<String>) {
+    for f in plan.schema().fields() {
+        names.insert(f.name.clone());
+    }
+    for child in plan.children() {
+        collect_local_column_names(child, names);
+    }
 }
 
 /// Recursively substitute column references with literals in a logical plan
